@@ -1,6 +1,11 @@
-use toolbox_rs::top_k::top_k;
+use std::sync::{Arc, atomic::AtomicI32};
+use toolbox_rs::{edge::TrivialEdge, geometry::FPCoordinate, inertial_flow::sub_step};
 fn main() {
-    println!("{:?}", top_k(vec![3u32,1,2], 100000000000));
-    println!("{:?}", top_k(vec![3u32,1,2], usize::MAX));
-    println!("{:?}", top_k(vec![3u32,1,2,9,8,7,0], 2));
+    let c = |n: usize| (0..n).map(|i| FPCoordinate::new(i as i32, 0)).collect::<Vec<_>>();
+    let e = |v: &[(usize,usize)]| v.iter().map(|(s,t)| TrivialEdge{source:*s,target:*t}).collect::<Vec<_>>();
+    let b = || Arc::new(AtomicI32::new(100));
+    println!("{:?}", sub_step(&e(&[]), &[0,1], &c(3), 0, 0.25, b()));
+    println!("{:?}", sub_step(&e(&[(0,1),(1,0),(3,4),(4,3)]), &[0,1,2,3,4], &c(5), 0, 0.49, b()));
+    println!("{:?}", sub_step(&e(&[(1,1),(0,2)]), &[0,1,2], &c(3), 0, 0.25, b()));
+    println!("{:?}", sub_step(&e(&[(0,1),(1,0),(2,3),(3,2)]), &[0,1,2,3], &c(4), 0, 0.25, b()));
 }
